@@ -46,6 +46,9 @@ package dns
 //@   stored at "zp.origin = name" dirorigin: value == callres("toAbsoluteName", 0) && callres("toAbsoluteName", 1) && callarg("toAbsoluteName", 0) == l.token && callarg("toAbsoluteName", 1) == zp.origin [C06]
 //@   callsite "toAbsoluteName" curorigin: arg1 == zp.origin [C06]
 //@   callsite "parse" rdorigin: arg1 == zp.origin && arg0 == zp.c [C06]
+//@   ghost inc0 at "neworigin := zp.origin" zp.origin
+//@   assert at "zp.sub = NewZoneParser(r1, neworigin, includePath)" keeporigin: zp.origin == inc0 [C06]
+//@   callsite "NewZoneParser" incorigin: arg1 == neworigin && (neworigin == inc0 || neworigin == callres("toAbsoluteName", 0)) [C06]
 //@   stored at "zp.parseErr = " errfile: value != nil && value.file == zp.file [C07]
 
 // $GENERATE: the range is checked before the generator is built, the generator stops at the end of the
